@@ -939,7 +939,15 @@ func (p *Program) findBinaryOpTable() (map[string]string, token.Pos, *types.Func
 			for _, sp := range gd.Specs {
 				vs := sp.(*ast.ValueSpec)
 				for i, n := range vs.Names {
-					if i >= len(vs.Values) || TypeStr(info.TypeOf(n)) != "map[parser.TokenKind]string" {
+					if i >= len(vs.Values) {
+						continue
+					}
+					mt, isMap := info.TypeOf(n).Underlying().(*types.Map)
+					if !isMap || TypeStr(mt.Key()) != "parser.TokenKind" {
+						continue
+					}
+					structRows := StructOf(mt.Elem()) != nil
+					if TypeStr(mt.Elem()) != "string" && !structRows {
 						continue
 					}
 					cl, ok := ast.Unparen(vs.Values[i]).(*ast.CompositeLit)
@@ -951,6 +959,18 @@ func (p *Program) findBinaryOpTable() (map[string]string, token.Pos, *types.Func
 						if kv, ok := el.(*ast.KeyValueExpr); ok {
 							if v, isS := constString(info, kv.Value); isS {
 								got[constName(info, kv.Key)] = v
+							} else if row, isRow := ast.Unparen(kv.Value).(*ast.CompositeLit); isRow && structRows {
+								// a row of several columns: the SQL spelling is its first constant string
+								for _, fe := range row.Elts {
+									val := fe
+									if fkv, ok := fe.(*ast.KeyValueExpr); ok {
+										val = fkv.Value
+									}
+									if v, isS := constString(info, val); isS {
+										got[constName(info, kv.Key)] = v
+										break
+									}
+								}
 							}
 						}
 					}
